@@ -3,9 +3,12 @@ use crate::engine::{entry, DynProperty};
 pub mod c01;
 pub mod c02;
 pub mod c03;
+pub mod c05;
+pub mod c06;
+pub mod union;
 pub mod frontends;
 pub mod selftest;
 
 pub fn registry() -> Vec<Box<dyn DynProperty>> {
-    vec![entry(c01::C01), entry(c02::C02), entry(c03::C03)]
+    vec![entry(c01::C01), entry(c02::C02), entry(c03::C03), entry(c05::C05), entry(c06::C06)]
 }
